@@ -161,8 +161,12 @@ def unit (v : Rat) : Bool := 0 ≤ v && v ≤ 1
 
 /-- The Spec value of a request, or `none` where the Spec makes no claim: a channel outside [0, 1];
 for the PDF modes operands that are not premultiplied colours in [0, 1]; the HSL modes with a
-component-alpha mask (not defined by the standard; the library leaves the destination alone). -/
-def specPixel (sqrt : Rat → Rat) (op : Nat) (ca : Bool) (s : Px) (m : Option Px) (d : Px) : Option Px :=
+component-alpha mask (not defined by the standard; the library leaves the destination alone).
+`gate := false` evaluates the equations without the range test (used only for the perturbed
+neighbours of an input that passed the test: a colour equal to its alpha must not lose its
+neighbours). -/
+def specPixel (sqrt : Rat → Rat) (op : Nat) (ca : Bool) (s : Px) (m : Option Px) (d : Px)
+    (gate : Bool := true) : Option Px :=
   -- per channel: (source alpha seen by the channel, masked source channel)
   let ma : Rat := match m with | some mm => mm.a | none => 1
   let mk (mc sc : Rat) : Rat × Rat :=
@@ -175,7 +179,7 @@ def specPixel (sqrt : Rat → Rat) (op : Nat) (ca : Bool) (s : Px) (m : Option P
   let (aB, sB) := mk (match m with | some mm => mm.b | none => 1) s.b
   let inRange := unit aA && unit aR && unit aG && unit aB && unit d.a && unit sA && unit sR && unit sG &&
     unit sB && unit d.r && unit d.g && unit d.b
-  if !inRange then none
+  if gate && !inRange then none
   else
     match renderFactors op aA d.a with
     | some _ =>
@@ -187,7 +191,7 @@ def specPixel (sqrt : Rat → Rat) (op : Nat) (ca : Bool) (s : Px) (m : Option P
     | none =>
       let premult := unit sA && unit sR && unit sG && unit sB && unit d.r && unit d.g && unit d.b &&
         sR ≤ aR && sG ≤ aG && sB ≤ aB && d.r ≤ d.a && d.g ≤ d.a && d.b ≤ d.a
-      if !premult then none
+      if gate && !premult then none
       else
         match separable sqrt op with
         | some B =>
